@@ -589,6 +589,69 @@ func rulesGoString(c *Ctx, r *Report, f *ssa.Function) {
 				}
 			})
 		}
+		// the keys kept as [2]byte and compared byte by byte: first bytes if they differ, else second bytes — the
+		// order bytes.Compare gives
+		if mc, ok := sortCall.Call.Args[1].(*ssa.MakeClosure); ok && !okLess {
+			g := mc.Fn.(*ssa.Function)
+			var sortedCell ssa.Value
+			if mi, ok := sortCall.Call.Args[0].(*ssa.MakeInterface); ok {
+				if ld, ok := mi.X.(*ssa.UnOp); ok {
+					sortedCell = ld.X
+				}
+			}
+			elemK := func(v ssa.Value, param int, k int64) bool {
+				ld, ok := v.(*ssa.UnOp)
+				if !ok || ld.Op != token.MUL {
+					return false
+				}
+				inner, ok := ld.X.(*ssa.IndexAddr)
+				if !ok {
+					return false
+				}
+				if kk, ok := cInt(constVal(inner.Index)); !ok || kk != k {
+					return false
+				}
+				outer, ok := inner.X.(*ssa.IndexAddr)
+				if !ok || len(g.Params) != 2 || outer.Index != ssa.Value(g.Params[param]) {
+					return false
+				}
+				// bytes: `<` on them is the order bytes.Compare uses
+				if bt, ok := ld.Type().Underlying().(*types.Basic); !ok || bt.Kind() != types.Uint8 {
+					return false
+				}
+				base, ok := outer.X.(*ssa.UnOp)
+				if !ok {
+					return false
+				}
+				fv, ok := base.X.(*ssa.FreeVar)
+				return ok && sortedCell != nil && bindingOf(fv) == sortedCell
+			}
+			lessAt := func(b *ssa.BasicBlock, k int64) bool {
+				rt, ok := lastInstr(b).(*ssa.Return)
+				if !ok || len(rt.Results) != 1 {
+					return false
+				}
+				bo, ok := rt.Results[0].(*ssa.BinOp)
+				if !ok {
+					return false
+				}
+				return (bo.Op == token.LSS && elemK(bo.X, 0, k) && elemK(bo.Y, 1, k)) || (bo.Op == token.GTR && elemK(bo.X, 1, k) && elemK(bo.Y, 0, k))
+			}
+			if len(g.Blocks) == 3 {
+				if iff, ok := lastInstr(g.Blocks[0]).(*ssa.If); ok {
+					if bo, ok := iff.Cond.(*ssa.BinOp); ok && (bo.Op == token.NEQ || bo.Op == token.EQL) &&
+						((elemK(bo.X, 0, 0) && elemK(bo.Y, 1, 0)) || (elemK(bo.X, 1, 0) && elemK(bo.Y, 0, 0))) {
+						differ, same := g.Blocks[0].Succs[0], g.Blocks[0].Succs[1]
+						if bo.Op == token.EQL {
+							differ, same = same, differ
+						}
+						if lessAt(differ, 0) && lessAt(same, 1) {
+							okLess = true
+						}
+					}
+				}
+			}
+		}
 		r.check(okLess, "GS", where, "sorted by key", c.pos(sortCall.Pos()), "keys are sorted by bytes.Compare(keys[i], keys[j]) < 0: ascending key order", "the sort's less function is not bytes.Compare(sorted[i], sorted[j]) < 0 on the key bytes: the listing is not in ascending key order for all symbols (e.g. escaped characters sort differently as text)")
 	}
 	// the sorted slice holds every key: appended in a range over m
@@ -603,6 +666,14 @@ func rulesGoString(c *Ctx, r *Report, f *ssa.Function) {
 			return
 		}
 		for _, v := range orderedVarargs([]ssa.Value{cl.Call.Args[1]}) {
+			// the key itself, kept as the [2]byte it is
+			if ex, ok := v.(*ssa.Extract); ok && ex.Index == 1 {
+				if nx, ok := ex.Tuple.(*ssa.Next); ok {
+					if rg, ok := nx.Iter.(*ssa.Range); ok && len(kf.Params) > 0 && rg.X == ssa.Value(kf.Params[0]) {
+						okKeys = true
+					}
+				}
+			}
 			// a []byte{k[0], k[1]} slice literal of the range key
 			if sl, ok := v.(*ssa.Slice); ok {
 				if al, ok := sl.X.(*ssa.Alloc); ok {
@@ -668,6 +739,14 @@ func rulesGoString(c *Ctx, r *Report, f *ssa.Function) {
 			base0 := strings.TrimSuffix(strings.TrimPrefix(a0, "call:align.charOrGap("), "[0]))")
 			base1 := strings.TrimSuffix(strings.TrimPrefix(a1, "call:align.charOrGap("), "[1]))")
 			if base0 == base1 && strings.Contains(a2, base0+"[0]), "+base0+"[1])") {
+				okLine = true
+			}
+		}
+		// the score looked up with the key as it is: m[k] is what Get(k[0], k[1]) returns for a key of the map
+		if strings.HasPrefix(a0, "call:align.charOrGap(") && strings.HasSuffix(a0, "[0]))") && strings.HasPrefix(a1, "call:align.charOrGap(") && strings.HasSuffix(a1, "[1]))") {
+			base0 := strings.TrimSuffix(strings.TrimPrefix(a0, "call:align.charOrGap("), "[0]))")
+			base1 := strings.TrimSuffix(strings.TrimPrefix(a1, "call:align.charOrGap("), "[1]))")
+			if base0 == base1 && a2 == "lookup(P0, "+base0+"))" {
 				okLine = true
 			}
 		}
